@@ -266,6 +266,28 @@ def run(ctx):
         for ch in core.chunks(titems, 24):
             jobs.append((tname, good, ch, 60000))
     ctx.bounds = {}
+    # scale-dependent shapes: chunks larger than one and two 32 KiB buffers (and than the transport's 16 KiB pieces), exactly one
+    # buffer, one byte more; each alone and all together missing, intact and with each requested chunk corrupted (the
+    # zero-fill of a failed chunk runs through the same buffer loop)
+    for cfg in (Cfg(0, b"", 0, 3, 1), Cfg(2, b"", 0, 1, 1)):
+        bigf, _ = universe.big_file(cfg, ctx.seed)
+        pbig = zckref.parse(bigf)
+        bname = "ref:big:%s" % cfg.name()
+        nb = len(pbig.chunks)
+        bmarks = ["".join("0" if j == i else "+" for j in range(nb)) for i in range(1, nb)] + ["+" + "0" * (nb - 1), "+0+0+0"[:nb]]
+        job = ["file %s" % bigf.hex()] + ["case mark=%s limit=-1 noscan=0 feed=0" % m for m in bmarks]
+        breq = {}
+        for c, m in zip(core.drv("ranges", "\n".join(job) + "\n"), bmarks):
+            breq[m] = core.unhex(c.first("G")["str"]).decode()
+        bitems2 = []
+        for m in bmarks:
+            for cuts in ("-", "k16384", "k4097", "k32768", "k40000"):
+                bitems2.append((m, -1, breq[m], default, None, cuts))
+            for j in expectation(bigf, pbig, m, breq[m])["covered"]:
+                for cuts in ("-", "k16384"):
+                    bitems2.append((m, -1, breq[m], default, j, cuts))
+        for ch in core.chunks(bitems2, 4):
+            jobs.append((bname, bigf, ch, 60000))
     ctx.bounds["boundary_alphabet"] = "%d boundaries: each RFC 2046 boundary character at start / middle / end / alone" % len(seen_b)
     ctx.bounds = dict(ctx.bounds or {}, **{"targets": [t[0] for t in tg], "missing_sets": "all non-empty subsets of chunks", "requests": nreq,
                   "spellings": len(sts), "cuts": "whole, 1-byte, k=2..17, every single cut" + (", every pair of cuts (selected responses)" if thorough else ""),
